@@ -163,6 +163,11 @@ def run_sched(ctx, pid, profiles, n_quick, n_thorough, extra=None, monitor_profi
             failures += monitors.mon_guard(monitors.Trace(s, impl[s["name"]]))
         if s.get("monitor") == "window" and pid in s.get("props", []):
             failures += monitors.mon_window(monitors.Trace(s, impl[s["name"]]))
+        if s.get("monitor") == "own" and pid in s.get("props", []):
+            fs = monitors.MONITORS[pid](monitors.Trace(s, impl[s["name"]]))
+            for f in fs:
+                f["no_shrink"] = True
+            failures += fs
         if s.get("monitor") == "window" and pid == "C05":
             fs = monitors.mon_C05(monitors.Trace(s, impl[s["name"]]))
             for f in fs:
@@ -380,7 +385,7 @@ PROPS.update({
                 assumptions=["each access to status / waker slot is one atomic action because it happens under its parking_lot mutex; Release/Acquire on the flag is modelled as sequentially consistent"]),
     "C13": dict(module="C13", run=mk("C13", ["shutdown", "queue1", "general"], 250, 4000), components=["api", "queue_worker", "pool", "store", "weights", "ticker", "roles"],
                 assumptions=["partial: 'shutdown() returns' and 'every acknowledgement completes' are proved as enabledness/progress facts of the model; that the worker and consumer threads keep being scheduled is assumed"]),
-    "C15": dict(module="C15", run=mk("C15", ["reads", "evict", "general"], 250, 4000, extra=stress_quiescent_extra("C15")), components=["pool", "stats", "tinylfu", "api"],
+    "C15": dict(module="C15", modules=["C15", "C15_pool"], run=mk("C15", ["reads", "evict", "general"], 250, 4000, extra=stress_quiescent_extra("C15")), components=["pool", "stats", "tinylfu", "api"],
                 assumptions=["partial: 'never blocks' is enabledness in the model; that crossbeam's select!{send, default} does not block is exercised with a gated (stalled) and an exited consumer, not proved"]),
     "C17": dict(module="C17", run=mk("C17", ["boundary", "general", "ttl", "queue1"], 300, 5000, extra=release_extra("C17")), components=["panics", "roles", "api", "store", "weights", "admission", "ticker", "sketch", "tinylfu", "queue_worker", "time", "pool"],
                 assumptions=["partial: covers the panic sites the model represents (assert!/unwrap/expect/index operations/i64 overflow under the debug profile/SystemTime addition); allocation failure, thread spawn failure and panics inside dependencies are not modelled",
